@@ -298,6 +298,10 @@ def keygen_rows(ctx: Ctx):
                 n = (6 if quick else 40) if suite == "G2Basic" else 2
                 for t in range(n):
                     ikm = rng.randbytes(rng.choice([0, 1, 31, 32, 33, 64, 128]))
+                    if t % 3 == 1:
+                        ikm = ikm + b"\x00"          # the appended zero byte must not depend on how IKM ends
+                    elif t % 3 == 2 and suite == "G2Basic":
+                        ikm = b"\x00" * (1 + t)
                     info = rng.randbytes(rng.choice([0, 0, 1, 2, 16, 64]))
                     if kind == "real":
                         rec.g = []
@@ -332,6 +336,7 @@ def keygen_big_rows(ctx: Ctx):
         S.xmd_hash_function = salt_fn
         for t in range(4 if ctx.tier == "quick" else 30):
             ikm = rng.randbytes(rng.choice([0, 1, 31, 32, 33, 64, 128]))
+            ikm = [ikm, ikm + b"\x00", b"\x00" + ikm, b"\x00" * 32, ikm + b"\x00\x00"][t % 5]      # zero bytes at the ends
             info = rng.randbytes(rng.choice([0, 0, 1, 16, 64]))
             rec.g = []
             salt_fn.g = []
